@@ -130,8 +130,9 @@ impl SetSketchParams {
         let jinf = b_inf.max(0.);
         //
         log::debug!("b_inf : {:.5e}, b_aux : {:.3e}", b_inf, b_aux);
-        //
-        assert!(jac >= 1. || jinf <= jsup);
+        // jinf <= jsup holds exactly (their difference is a square over b - 1); near jac = 1 rounding
+        // can invert the two by an ulp, which must not abort the caller
+        let jinf = jinf.min(jsup);
         //
         (jinf, jsup)
     }
